@@ -36,6 +36,7 @@ PROPS = {
                         "same codec / int / format assumptions and the same fixed family of element subsets as C01"],
     },
     'C06': {
+        'deps': ['C01', 'C03'],
         'modules': ISOMODS + ['contracts.mciipm_block', 'contracts.mciipm_vbs', 'contracts.ipm_e2e'],
         'canaries': [
             (MCI, "record = iso8583.dumps(obj, encoding=self.encoding, iso_config=self.iso_config)", "record = iso8583.dumps(obj, encoding=self.encoding)", "writer ignores its field configuration", "IpmWriter.write/contract"),
@@ -46,6 +47,7 @@ PROPS = {
                         "isolation: every reader/writer method writes only fields of its own instance and its own file object (frame obligations; a lint over the class bodies for stores to class attributes or globals); simultaneous use from several THREADS is out of reach - only sequential interleavings of whole calls are covered"],
     },
     'C19': {
+        'deps': ['C06', 'C12'],
         'modules': ['contracts.iso_field', 'contracts.iso_pds', 'contracts.cli_tools'],
         'canaries': [
             ('cardutil/cli/mci_ipm_encode.py', "if field_config.get(\"field_processor\") == 'PDS':", "if field_config.get(\"field_processor\"):", "get_config removes every processor (ICC data re-encoded)", "get_config"),
@@ -59,6 +61,7 @@ PROPS = {
                         "mideu convert re-packs PDS sub-elements: equal carriers follow from C12 (same sorted items, same greedy cuts); not re-proved here"],
     },
     'C20': {
+        'deps': ['C06', 'C12'],
         'modules': ['contracts.iso_field', 'contracts.cli_tools'],
         'canaries': [
             ('cardutil/cli/mci_csv_to_ipm.py', "record = {k: v for k, v in row.items() if v}", "record = {k: v for k, v in row.items() if v and k != 'PDS0023'}", "a supplied column dropped on the way in", "mci_csv_to_ipm[1014"),
